@@ -136,6 +136,7 @@ def run_tempo(inp, rho0_vec, influence, P1, P2, N, K, d, unitary=None, degenerac
 def run_pt_tempo(inp, influence, N, K, d, dt=0.1, degeneracy_maps=None, sum_north=None, sum_west=None,
                  transform_in=None, transform_out=None, process_tensor=None):
     """real PtTempoBackend.initialize / compute_step / update_process_tensor"""
+    assert N >= 2, "harness precondition: PT-TEMPO needs at least two steps (PtTempo.__init__ asserts it)"
     D = d * d
     sn = np.ones(D) if sum_north is None else sum_north
     sw = np.ones(D) if sum_west is None else sum_west
